@@ -35,7 +35,15 @@ CfgOf(r) ==
       hasdeny |-> r.hasdeny, deny |-> SetOf(r.deny),
       key |-> r.key, logger |-> r.logger ]
 
-ObsOf(r) == [ kind |-> r.out, rep |-> r.rep, log |-> r.log, tcb |-> r.tcb, aux |-> r.aux ]
+(* A frame padded with zeros to the Ethernet minimum (60 bytes) is the same frame: the IP lengths *)
+(* speak of the packet, not of the padding.                                                       *)
+Unpad(f) ==
+    IF Len(f) > 60 \/ Len(f) < 34 THEN f
+    ELSE LET e == IF EthType(f) = ETH_IP4 THEN 14 + Ip4TotLen(f)
+                  ELSE IF EthType(f) = ETH_IP6 /\ Len(f) >= 54 THEN 54 + Ip6PLen(f) ELSE Len(f)
+         IN IF e >= 34 /\ e < Len(f) /\ \A k \in (e + 1)..Len(f) : f[k] = 0 THEN SubSeq(f, 1, e) ELSE f
+
+ObsOf(r) == [ kind |-> r.out, rep |-> Unpad(r.rep), log |-> r.log, tcb |-> r.tcb, aux |-> r.aux ]
 
 DefaultCfg == [ mac |-> << 0, 0, 0, 0, 0, 0 >>, hasself |-> 0, self |-> {}, hasdeny |-> 0, deny |-> {}, key |-> 0, logger |-> "none" ]
 
